@@ -70,7 +70,7 @@ with concurrent.futures.ThreadPoolExecutor(jobs) as ex:
     for res in ex.map(worker, chunks):
         for name, status, info in res:
             print(f'{status:15s} {name}: {info}')
-            if status not in ('DETECTED',):
+            if status not in ('DETECTED', 'STALE'):
                 bad += 1
 print(f'{len(mutants)} mutants, {bad} not detected as expected')
 sys.exit(1 if bad else 0)
